@@ -39,6 +39,7 @@ class Module:
         normalise.attr_builtins(self.tree)
         normalise.filter_loops(self.tree)
         normalise.append_loops(self.tree)
+        normalise.sum_loops(self.tree)
         normalise.sort_method_to_sorted(self.tree)
         normalise.flatten_else(self.tree)
         normalise.merge_nested_ifs(self.tree)
